@@ -49,23 +49,26 @@ theorem failed_save_keeps_old_dump (x bg : Bool) (s : Sys) (hidle : s.procs = []
   exact (saveRun_ok x bg' s1 a1 a2 a5 chunks').2.2.1
 
 /-- … in particular the save after a failure writes the complete snapshot of the dataset it sees,
-    and that file loads back (C09) — for every well-formed dataset. -/
+    and that file loads back (C09) — for every well-formed dataset.  (`escDataset`: the dataset as the
+    writer sees it under C09's escape rule for lists headed by the stream marker; the identity without
+    the rule, and then such lists are excluded as in C09.) -/
 theorem save_after_failure_is_loadable (x bg bg' : Bool) (old : Option Bytes) (chunks : List Bytes) (n : Nat)
     (h1 : 1 ≤ n) (h2 : n ≤ chunks.length) (fix : Fix) (ver : Bytes) (d : Dataset) (t t' : Nat)
-    (hver : ver.length < 2 ^ 32) (ht : t < 2 ^ 64) (hwf : datasetWF d = true)
-    (hm : anyEntry (fun e => startsWithMarker e.val) d = false)
+    (hver : ver.length < 2 ^ 32) (ht : t < 2 ^ 64) (hwf : datasetWF (escDataset fix.listEscape d) = true)
+    (hm : anyEntry (fun e => startsWithMarker e.val) d = false ∨ fix.listEscape = true)
     (hs : anyEntry (fun e => isEmptyStream e.val) d = false ∨ fix.keepEmptyStream = true) :
+    let w := escDataset fix.listEscape d
     let s1 := run x (initSys old) (startEv bg ⟨chunks, some n⟩ :: soloEvents chunks.length)
-    let s2 := run x s1 (startEv bg' ⟨cSnapshot ver d t, none⟩ :: soloEvents (cSnapshot ver d t).length)
+    let s2 := run x s1 (startEv bg' ⟨cSnapshot ver w t, none⟩ :: soloEvents (cSnapshot ver w t).length)
     dumpContent s1.fs = old ∧
-    dumpContent s2.fs = some (encSnapshot ver d t) ∧
-    decSnapshot fix (encSnapshot ver d t) t' = .ok (loadedDataset fix t t' d) := by
-  intro s1 s2
+    dumpContent s2.fs = some (saveSnapshot fix.listEscape ver d t) ∧
+    decSnapshot fix (saveSnapshot fix.listEscape ver d t) t' = .ok (loadedDataset fix t t' d) := by
+  intro w s1 s2
   have hinit : (initSys old).procs = [] ∧ (initSys old).flag = false := by cases old <;> simp [initSys]
   have h := failed_save_keeps_old_dump x bg (initSys old) hinit.1 hinit.2 (namesOK_init old) chunks n h1 h2
   refine ⟨?_, ?_, ?_⟩
   · rw [h.1]; cases old <;> simp [initSys, dumpContent]
-  · have := h.2.2.2.2.2 bg' (cSnapshot ver d t)
+  · have := h.2.2.2.2.2 bg' (cSnapshot ver w t)
     rw [cSnapshot_flatten] at this
     exact this
   · exact decSnapshot_encSnapshot fix ver d t t' (by simpa [two32] using hver) (by simpa [two64] using ht)
@@ -206,8 +209,8 @@ theorem per_key_consistent_fails_zset_unloadable :
   have h : decSnapshotT fix
       (fileOf [48, 46, 49, 46, 48] 1000 0 (recBytes 1000 [122] ⟨.zset [([97], 1), ([98], 2)], some 3, none⟩)) 2000 =
       .err .badLength [9, 5, 5, 1, 1, 1, 1] := by
-    obtain ⟨a, b⟩ := fix
-    cases a <;> cases b <;> decide
+    obtain ⟨a, b, c⟩ := fix
+    cases a <;> cases b <;> cases c <;> decide
   unfold decSnapshot
   rw [h]
 
